@@ -1,5 +1,6 @@
 (** Comparators evaluated on the cases the harness produced for C14 (no proofs). *)
-From WM Require Import Base.Prelude Dedup.Model.
+From WM Require Import Base.Prelude Dedup.Model Dedup.Timed.
+From WM Require Export Dedup.Clients.
 Local Open Scope Z_scope.
 
 (** * hashers *)
@@ -117,12 +118,7 @@ Definition seq_mismatches (cs : list seq_case) : list nat := positions (map seq_
 
 (** * concurrent cases: schedule replay, outcomes, monitor *)
 
-Inductive opspec :=
-| OpMW (m : N) (it : item)
-| OpDEC (ms : list (N * item)).
-
-Definition has_err (ms : list (N * item)) : bool :=
-  existsb (fun x => match snd x with IErr _ => true | IKey _ => false end) ms.
+(** [opspec], [has_err], [compile], [delivered]: Dedup/Clients.v *)
 
 (** attach the repository's answers (in call order) to the messages of a batch; [stop] = the
     loop has hit a hasher error, nothing after it is asked.  Returns the annotated batch, the
@@ -223,6 +219,15 @@ Definition conc_replay (c : conc_case) : list nat :=
   else if negb (forallb (fun o => match o with Some (_, _, []) => true | _ => false end) ex) then [6%nat]
   else
     let progs := map (fun o => match o with Some (_, p, _) => p | None => [] end) ex in
+    (* the client programs and deliveries the theorems C14_delivered_iff_new / C14_program_conserved
+       talk about: [compile] must be the program the replay uses (9), [delivered] on the observed
+       answers must be what the handler / inner publisher were given (10) *)
+    (if list_eqb (list_eqb (fun a b => N.eqb (fst a) (fst b) && N.eqb (snd a) (snd b)))
+          (map (compile (cc_fixed c)) (cc_threads c)) progs then [] else [9%nat]) ++
+    (if list_eqb nlist_eqb
+          (map (fun p => delivered (cc_fixed c) (fst p) (snd p)) (combine (cc_threads c) (cc_answers c)))
+          (map (fun os => flat_map (fun o => match o with ObsMW h _ _ => h | ObsDEC _ i _ => concat i end) os) (cc_obs c))
+     then [] else [10%nat]) ++
     let exobs := map (fun o => match o with Some (os, _, _) => os | None => [] end) ex in
     (if list_eqb (list_eqb obs_eqb) exobs (cc_obs c) then [] else [5%nat]) ++
     match replay (cc_w c) (init (cc_t0 c) (roles_of progs)) (cc_sched c) with
@@ -268,8 +273,13 @@ Definition delivered_ok (fixed : bool) (ops : list opspec) (ans : list bool) (os
      | _, _ => false
      end) ops ans os.
 
+(** slack of the freshness verdict on the implementation, in windows past the expiry
+    (C14_timely_trace_fresh proves p + 3d for the timely model; the documentation says 1/2) *)
+Definition fresh_slack : Z := 7.
+
 Definition conc_violation (c : conc_case) : list nat :=
   (if mon_ok (cc_w c) (cc_t0 c) (cc_events c) then [] else [20%nat]) ++
+  (if dups_fresh (cc_w c) (fresh_slack * cc_w c) ([], cc_t0 c) (cc_events c) then [] else [22%nat]) ++
   (if forallb (fun p => delivered_ok (cc_fixed c) (fst (fst p)) (snd (fst p)) (snd p))
         (combine (combine (cc_threads c) (cc_answers c)) (cc_obs c)) then [] else [21%nat]).
 
@@ -311,3 +321,60 @@ Definition stale_keys (S w : Z) (cs : list acall) : list N :=
 Definition api_stale (S : Z) (cs : list (Z * list acall)) : list (nat * list N) :=
   flat_map (fun p => match stale_keys S (fst (snd p)) (snd (snd p)) with [] => [] | ks => [(fst p, ks)] end)
            (combine (seq 0 (length cs)) cs).
+
+(** * model-side search (used when the replay rejects a label but no acceptor rejects anything)
+
+    The recorded schedule made a step the model does not have (typically: a Lock while another
+    thread is between Lock and Unlock).  [pstep] is the model with exactly that liberty — a
+    label that is refused is retried with the mutex forced free — and [conc_search] looks, by
+    iterative deepening over the steps of the threads involved (the thread of the rejected
+    label and the lock holder), from the last agreeing state, for the SHORTEST continuation
+    whose trace the timed-set specification rejects.  By C14_trace_accepted no such
+    continuation exists without the liberty; with it, the result is the schedule that would
+    turn the observed deviation into a property violation (it is a prediction about the
+    implementation, reported in the replay file, not a failing input). *)
+Definition pstep (w : Z) (s : state) (l : label) : option state :=
+  match step w s l with
+  | Some s' => Some s'
+  | None => step w (ST (tags s) None (clock s) (thr s) (trace s)) l
+  end.
+
+Fixpoint replay_upto (w : Z) (s : state) (sched : list label) : state * list label :=
+  match sched with
+  | [] => (s, [])
+  | l :: sched' => match step w s l with Some s' => replay_upto w s' sched' | None => (s, sched) end
+  end.
+
+Fixpoint dfs (w t0 : Z) (cands : list tid) (fuel : nat) (s : state) : option (list tid) :=
+  if negb (mon_ok w t0 (rev (trace s))) then Some [] else
+  match fuel with
+  | O => None
+  | S f =>
+      (fix try (cs : list tid) : option (list tid) :=
+         match cs with
+         | [] => None
+         | t :: cs' =>
+             match pstep w s (LThr t) with
+             | Some s' => match dfs w t0 cands f s' with Some l => Some (t :: l) | None => try cs' end
+             | None => try cs'
+             end
+         end) cands
+  end.
+
+Definition first_some {A} (l : list (option A)) : option A :=
+  fold_right (fun o acc => match o with Some x => Some x | None => acc end) None l.
+
+(** (index of the rejected label, 1 + its thread or 0, the shortest violating continuation) *)
+Definition conc_search (depth : nat) (c : conc_case) : nat * nat * list tid :=
+  let ex := expects c in
+  let progs := map (fun o => match o with Some (_, p, _) => p | None => [] end) ex in
+  let '(s, rest) := replay_upto (cc_w c) (init (cc_t0 c) (roles_of progs)) (cc_sched c) in
+  let idx := (length (cc_sched c) - length rest)%nat in
+  match rest with
+  | LThr t :: _ =>
+      let cands := nodup Nat.eq_dec (t :: match owner s with Some o => [o] | None => [] end) in
+      (idx, S t,
+       match first_some (map (fun n => dfs (cc_w c) (cc_t0 c) cands n s) (seq 1 depth)) with
+       | Some l => l | None => [] end)
+  | _ => (idx, O, [])
+  end.
